@@ -172,6 +172,8 @@ def corpus():
         {'k': 'tree', 'prog': [M(0), D(0, [None, 0, None, None, None])]},
         {'k': 'tree', 'prog': [{'op': 'CPhase', 'q': [1, 1]}]},
         {'k': 'lib', 'init': [0, 1, 0], 'cycles': 2},
+        # F11: an observable without (last_acquisition_index, main_target)
+        {'k': 'tree', 'prog': [M(0), {'op': 'LogicalObservableOperation', 'q': [0], 'a': [None, None]}]},
     ]
 
 
